@@ -112,7 +112,16 @@ func dominatingConds(t *ssa.BasicBlock) []condEdge {
 		}
 		for k := 0; k < 2; k++ {
 			if edgeDominated(id, k, t) {
-				out = append(out, condEdge{iff, iff.Cond, k == 0})
+				// "!x" holding/failing is x failing/holding
+				cond, val := iff.Cond, k == 0
+				for {
+					u, isNot := cond.(*ssa.UnOp)
+					if !isNot || u.Op != token.NOT {
+						break
+					}
+					cond, val = u.X, !val
+				}
+				out = append(out, condEdge{iff, cond, val})
 			}
 		}
 	}
